@@ -154,6 +154,7 @@ Section TreeOk.
 
   Definition stl_ok (old new : elem) : Prop :=
     e_text old = e_text new /\ Permutation (e_attrs old) (e_attrs new) /\
+    same_addr_attrs (e_attrs old) (e_attrs new) /\
     (exists T, Forall (leafT T) (e_children old) /\ Forall (leafT T) (e_children new)) /\
     Forall plain_leaf (e_children old) /\ Forall plain_leaf (e_children new) /\
     match e_children old, e_children new with
@@ -387,3 +388,130 @@ Section LoopSound.
              rewrite Happ2, Hfin. reflexivity.
   Qed.
 End LoopSound.
+
+(* ------------------------------------------------------------------------------------------ *)
+(** * addElemChanges *)
+
+Lemma leaflist_check_ok T l : Forall (fun e => e_tag e = T /\ e_children e = []) l -> leaflist_check T l = Ok tt.
+Proof.
+  unfold leaflist_check. intros H.
+  assert (G : forall acc, acc = Ok tt ->
+    fold_left (fun (r : res unit) e => do _ <- r; if negb (seqb (e_tag e) T) then Err "other tag in leaf list"
+                                       else if negb (isLeaf e) then Err "leaf list element has children" else Ok tt) l acc = Ok tt).
+  { induction H as [|x l [Hx1 Hx2] _ IH]; intros acc ->; cbn [fold_left]; [reflexivity|].
+    apply IH. cbn [bind]. rewrite Hx1, seqb_refl. cbn [negb]. unfold isLeaf. now rewrite Hx2. }
+  now apply G.
+Qed.
+
+Lemma leaf_list_shape T l : Forall (leafT T) l -> Forall plain_leaf l ->
+  Forall (fun e => e_tag e = T /\ e_children e = []) l.
+Proof.
+  intros H1 H2. apply Forall_forall. intros x Hx.
+  pose proof (proj1 (Forall_forall _ _) H1 x Hx) as [Ht _].
+  pose proof (proj1 (Forall_forall _ _) H2 x Hx) as [Hc _]. now split.
+Qed.
+
+Lemma aval_perm k a b : Permutation a b -> NoDup (keys a) -> aval k a = aval k b.
+Proof. intros HP Hn. unfold aval. now rewrite (select_attr_perm k a b HP Hn). Qed.
+
+Lemma sims_equiv A B : sims A B -> Forall2 equiv A B.
+Proof. induction 1 as [|a b A B [H _] _ IH]; constructor; auto. Qed.
+
+Section TreeSound.
+  Variable diff : differ.
+
+  Theorem tree_sound : forall fuel old new P ctx,
+    tree_ok diff fuel old new -> Forall addr_step P -> located P ctx (sig_of old) ->
+    exists ops new', elem_ops_with diff fuel old new P = Ok ops /\
+                     apply_ops ops (plug ctx old) = Some (plug ctx new') /\ sim new' new.
+  Proof.
+    induction fuel as [|f IH]; intros old new P ctx HT HP HL; cbn [tree_ok] in HT; [contradiction|].
+    destruct HT as (Htag & Hm1 & Hm2 & HT). cbn [elem_ops_with].
+    rewrite Htag, seqb_refl. cbn [negb]. unfold mandatory_id in Hm1, Hm2. rewrite Hm1, Hm2. cbn [bind].
+    rewrite <- Htag.
+    destruct (seqb (e_tag old) "SegmentTimeline") eqn:ESTL.
+    - (* SegmentTimeline: leaf list *)
+      destruct HT as (Htext & Hperm & [Hid Hsu] & (T & HoT & HnT) & Hop & Hnp & Hs).
+      assert (Hsim0 : forall R, R = e_children new -> sim (set_children old R) new).
+      { intros R ->. destruct old as [t a x c], new as [t' a' x' c']. cbn in *. subst. split.
+        - constructor; [exact Hperm|]. apply sims_equiv, sims_refl.
+        - repeat split; assumption. }
+      unfold leaflist_changes_with.
+      destruct (e_children old) as [|o1 oldE'] eqn:EO.
+      + destruct (e_children new) as [|n1 newE'] eqn:EN.
+        * exists [], old. split; [reflexivity|]. split; [reflexivity|].
+          replace old with (set_children old []) at 1 by (rewrite <- EO; now destruct old). now apply Hsim0.
+        * destruct Hs as (s & Hd & Hv).
+          assert (HT1 : T = e_tag n1) by (inversion HnT as [|? ? [Ht _] _]; now subst).
+          rewrite (leaflist_check_ok (e_tag n1) []) by constructor.
+          rewrite (leaflist_check_ok (e_tag n1) (n1 :: newE')).
+          2:{ rewrite <- HT1. now apply leaf_list_shape. }
+          cbn [bind]. rewrite Hd. cbn [bind].
+          destruct (leaflist_script_sound T [] (n1 :: newE') HoT HnT P plain_leaf Hop Hnp s ctx old Hv EO HL)
+            as (ops & R & Hops & Happ & HR & HQR).
+          exists ops, (set_children old R). split; [exact Hops|]. split; [exact Happ|].
+          apply Hsim0. now apply Forall2_plain_eq.
+      + destruct Hs as (s & Hd & Hv).
+        assert (HT1 : T = e_tag o1) by (inversion HoT as [|? ? [Ht _] _]; now subst).
+        assert (Hchk : forall l, Forall (leafT T) l -> Forall plain_leaf l -> leaflist_check (e_tag o1) l = Ok tt).
+        { intros l H1 H2. apply leaflist_check_ok. rewrite <- HT1. now apply leaf_list_shape. }
+        rewrite (Hchk _ HoT Hop), (Hchk _ HnT Hnp). cbn [bind].
+        assert (Hd' : diff equalLeafs (o1 :: oldE') (e_children new) = Ok s).
+        { destruct (e_children new); exact Hd. }
+        assert (Hv' : valid_script equalLeafs s (o1 :: oldE') (e_children new) = true).
+        { destruct (e_children new); exact Hv. }
+        rewrite Hd'. cbn [bind].
+        destruct (leaflist_script_sound T (o1 :: oldE') (e_children new) HoT HnT P plain_leaf Hop Hnp s ctx old Hv' EO HL)
+          as (ops & R & Hops & Happ & HR & HQR).
+        exists ops, (set_children old R). split; [exact Hops|]. split; [exact Happ|].
+        apply Hsim0. now apply Forall2_plain_eq.
+    - destruct (isLeaf old && isLeaf new) eqn:ELeaf.
+      + (* two leaves *)
+        apply andb_true_iff in ELeaf. destruct ELeaf as [Hlo Hln].
+        unfold leaf_pair_ok in HT. unfold leaf_changes.
+        destruct (negb (seqb (e_text old) (e_text new))) eqn:Etx.
+        * exists [OReplace P new], new. split; [reflexivity|]. split; [|apply sim_refl].
+          cbn [apply_ops]. rewrite (replace_located P ctx old new HL). reflexivity.
+        * destruct HT as (OK & Hid & Hsu).
+          destruct (attr_ops_apply P ctx old (e_attrs new) HP HL OK Hid Hsu) as (r & Hr & Hperm).
+          exists (attr_ops P (e_attrs old) (e_attrs new)), (set_attrs old r). split; [reflexivity|]. split; [exact Hr|].
+          apply negb_false_iff, seqb_eq in Etx.
+          assert (Hnr : NoDup (keys r)).
+          { eapply Permutation_NoDup; [symmetry; apply keys_perm; exact Hperm|apply OK]. }
+          destruct old as [t a x c], new as [t' a' x' c']. unfold isLeaf in Hlo, Hln. cbn in *.
+          destruct c; [|discriminate]. destruct c'; [|discriminate]. subst. split.
+          -- constructor; [exact Hperm|constructor].
+          -- repeat split; cbn; now apply aval_perm.
+      + (* element with children *)
+        destruct HT as (Htext & OK & [Hid Hsu] & s & Hd & Hv & Hloop).
+        destruct (attr_ops_apply P ctx old (e_attrs new) HP HL OK Hid Hsu) as (r & Hr & Hperm).
+        assert (Hnr : NoDup (keys r)).
+        { eapply Permutation_NoDup; [symmetry; apply keys_perm; exact Hperm|apply OK]. }
+        set (e1 := set_attrs old r).
+        assert (HL1 : located P ctx (sig_of e1)).
+        { eapply located_compat; [exact HP| |exact HL]. unfold e1. rewrite sig_of_set_attrs.
+          unfold sig_compat, sig_of. cbn [fst snd]. split; [reflexivity|].
+          split; [rewrite Hid|rewrite Hsu]; symmetry; now apply aval_perm. }
+        rewrite Hd. cbn [bind].
+        destruct (loop_sound (elem_ops_with diff f) (tree_ok diff f) (fun oe ne P' ctx' H1 H2 H3 => IH oe ne P' ctx' H1 H2 H3)
+                    (e_children old) (e_children new) P HP s 0 0 None (mkES 0 0 None []) [] ctx e1)
+          as (cops & Rr & Hc & Happ & HRr).
+        * exact Hloop.
+        * rewrite !dropZ_0. exact Hv.
+        * unfold st_inv. cbn [es_old es_new es_lastPath es_cnt option_map cnt_get]. repeat split; auto.
+          -- intros t. rewrite takeZ_nonpos by lia. reflexivity.
+          -- discriminate.
+        * lia.
+        * lia.
+        * reflexivity.
+        * rewrite takeZ_nonpos by lia. constructor.
+        * rewrite dropZ_0. now destruct old.
+        * exact HL1.
+        * rewrite Hc. cbn [bind]. cbn [app] in Happ, HRr.
+          exists (attr_ops P (e_attrs old) (e_attrs new) ++ cops), (set_children e1 Rr). split; [reflexivity|]. split.
+          -- rewrite apply_ops_app, Hr. cbn [obind]. exact Happ.
+          -- destruct old as [t a x c], new as [t' a' x' c']. cbn in *. subst. split.
+             ++ constructor; [exact Hperm|now apply sims_equiv].
+             ++ repeat split; cbn; now apply aval_perm.
+  Qed.
+End TreeSound.
